@@ -192,7 +192,7 @@ def run(run):
     wd = workdir('c03')
     try:
         cs = qcases(run.tier, seed())
-        consts = {'QCases': tlc.tla_val(cs), 'Reach': '12' if run.tier == 'quick' else '25', 'TableDirs': tlc.tla_val(fm94.table_dirs(33))}
+        consts = {'QCases': tlc.tla_val(cs), 'Reach': '12' if run.tier == 'quick' else '25', 'TableDirs': tlc.tla_val(fm94.table_dirs(33)), 'ExtraB': '<<>>', 'ExtraD': '<<>>'}
         text = tlc.mc_module('MC_Quant', ['Quant'], consts)
         cfg = tlc.mc_cfg(consts, invariants=['TypeOK', 'ExactOnGrid', 'HalfUnit', 'NeverWrapNorClip', 'OutOfRangeMustBeRefused',
                                               'FixpointOnGrid', 'Emit'])
